@@ -257,6 +257,9 @@ def check_case(case):
     tapes = tg.all_tapes(case)
     d3 = tg.has_top_spread_filter(ast)
     d4 = tg.has_str_ending_in_escaped_backslash(ast)
+    # a keyword named like render()'s own parameters (context=..., self=...) is an ordinary input of a component; on a tag
+    # defined with @template_tag / BaseNode it collides with the function's parameters as in Python (C11 owns that)
+    render_param_kw = any(a.get("t") == "kw" and a.get("k") in tg.RENDER_PARAM_KEYS for a in ast.get("attrs", []))
     for li, tape in enumerate(tapes):
         r = tg.render_args(ast, tape)
         layouts.append(r)
@@ -265,6 +268,8 @@ def check_case(case):
         for rname, head, endtag in RECEIVERS:
             if rname == "short" and li not in SHORT_LAYOUTS:
                 continue  # same code path as `comp` apart from the formatter: half of the layouts is enough
+            if render_param_kw and rname not in COMPONENT_PATH:
+                continue
             src = "{% " + head + r["text"] + "%}"
             if not r["slash"]:
                 src += "{% " + endtag + " %}"
@@ -294,7 +299,7 @@ def check_case(case):
         # --- classify: known defect classes by structural predicate of the case / layout ------------
         if got[0] == "compile-exc" and got[1] == "StopIteration" and rname in COMPONENT_PATH and tg.split_contents_breaks(contents[(li, rname)]):
             special.append(
-                ("D2 %s: %r raised StopIteration from split_contents; node receiver: %s" % (rname, src, _brief(results[(li, "node")][1])), "D2:split-contents-translation")
+                ("D2 %s: %r raised StopIteration from split_contents; node receiver: %s" % (rname, src, _brief(results.get((li, "node"), ("", "-"))[1])), "D2:split-contents-translation")
             )
             continue
         dc = _defect_class(case, ast, tapes[li], rname, got, r["notes"], d3, d4)
@@ -305,7 +310,7 @@ def check_case(case):
         if _matches(exp, results[(0, rname)][1]):
             bucket = "layout-variance:%s:%s" % (rname if rname == "node" else "component-path", kind)
             msg = "layout changes the result on %s: %r -> %s but tight layout %r -> expected %s" % (rname, src, _brief(got), results[(0, rname)][0], _brief(exp))
-        elif _matches(exp, results[(li, "node")][1]):
+        elif (li, "node") in results and _matches(exp, results[(li, "node")][1]):
             bucket = "receiver-disagree:%s" % kind
             msg = "%s receiver differs from BaseNode receiver: %r -> %s, expected (and node got) %s" % (rname, src, _brief(got), _brief(exp))
         else:
@@ -322,6 +327,8 @@ def check_case(case):
                 exp2 = None  # the perturbed context leaves the evaluator's domain: not judged
             if exp2 is not None and exp2[0] == "ok":
                 for rname in ("comp", "node"):
+                    if (0, rname) not in results:
+                        continue
                     src = results[(0, rname)][0]
                     got2 = run_source(src, case["ctx"], then_ctx=ctx2)
                     if not _matches(exp2, got2):
@@ -332,7 +339,7 @@ def check_case(case):
         "notes": notes,
         "exp_kind": exp[0] if exp else "TSE",
         "src0": results[(0, "comp")][0],
-        "src_other": results[(len(layouts) - 1, "node")][0],
+        "src_other": results.get((len(layouts) - 1, "node"), results[(len(layouts) - 1, "comp")])[0],
         "exp": exp,
     }
     return general, special, info
